@@ -130,6 +130,12 @@ fn scalars() -> Vec<Scalar> {
     push(bits(&[0, 1, 67]), "bits0+1+67");
     push(bits(&[0, 67, 133, 200]), "bits0+67+133+200");
     push(bits(&[2, 70, 139, 209]), "bits2+70+139+209");
+    // a power of two minus a small odd number: every low digit is negative and larger in magnitude
+    // than any positive digit (the top digit is +1)
+    push(sub_small(bit(40), 5), "2^40-5");
+    push(sub_small(bit(100), 7), "2^100-7");
+    push(sub_small(bits(&[200, 120]), 13), "2^200+2^120-13");
+    push(sub_small(bit(254), 3), "2^254-3");
     for (a, b) in [(63usize, 64usize), (127, 128), (191, 192), (31, 32), (95, 96), (159, 160), (223, 224)] {
         push(bits(&[a, b]), &format!("bits{}+{}", a, b));
     }
